@@ -332,6 +332,10 @@ def use_stub(target, stub_fn):
     pass
 
 
+def use_lib_stub(names, stub_fn):
+    raise NotReplayable("library stubs are symbolic-only")
+
+
 def set_unroll(n):
     pass
 
